@@ -184,12 +184,7 @@ end PdfVerif.Layout
 namespace PdfVerif.Layout
 open PdfVerif PdfVerif.Gen.Layout
 
-/-- Executable form of `Node.above` / `Node.Separated`. -/
-def Node.aboveB (l r : Node) : Bool := l.leaves.all fun a => r.leaves.all fun b => decide (b.bb.y1 ≤ a.bb.y0)
-
-def Node.separatedB : Node → Bool
-  | .leaf _ => true
-  | .grp _ _ l r => (l.aboveB r || r.aboveB l) && l.separatedB && r.separatedB
+/- `Node.aboveB`, `Node.separatedB` (executable forms, used by the driver op `colsep`) are in Model/Layout.lean. -/
 
 theorem aboveB_iff (l r : Node) : l.aboveB r = true ↔ l.above r := by
   simp only [Node.aboveB, Node.above, List.all_eq_true, decide_eq_true_eq]
